@@ -670,6 +670,9 @@ def mk_call(fn, args=(), kwargs=()):
         ca, cb = a.const(), b.const()
         if ca is not None and cb is not None and cb != 0:
             return Term.num(ca % cb)
+    if fn == 'float' and len(args) == 1 and not kwargs and _numeric_like(args[0]) and \
+            not any(a.kind == 'sub' for a in args[0].atoms()):
+        return args[0]
     if fn == 'len' and len(args) == 1:
         at = args[0].single_atom()
         if at is not None and at.kind in ('tuple', 'list'):
@@ -831,7 +834,34 @@ def canon_seq(t):
 
 
 def canon(t):
-    return subst(t, lambda a: None)
+    return rename_loops(subst(t, lambda a: None))
+
+
+def rename_loops(t):
+    """Loop / try identifiers are line based (L46, C12:4:0, T128); rename them by rank so that a
+    reference transcription with different line numbers compares equal."""
+    import re
+    ids = set()
+    for a in all_atoms(t).values():
+        if a.kind in ('after', 'loopvar', 'idx', 'elem', 'key', 'exc', 'partial'):
+            for x in a.args:
+                if isinstance(x, str) and re.match(r'^[LCT]\d', x):
+                    ids.add(x)
+    if not ids:
+        return t
+
+    def rank_key(i):
+        nums = [int(n) for n in re.findall(r'\d+', i)]
+        return (i[0], nums)
+    order = {i: f'{i[0]}#{k}' for k, i in enumerate(sorted(ids, key=rank_key))}
+
+    def fn(a):
+        if a.kind in ('after', 'loopvar', 'idx', 'elem', 'key', 'exc', 'partial'):
+            new = tuple(order.get(x, x) if isinstance(x, str) else x for x in a.args)
+            if new != a.args:
+                return Term.of(Atom(a.kind, *new))
+        return None
+    return subst(t, fn)
 
 
 def _subst_atom(a, fn, memo):
